@@ -150,9 +150,12 @@ ADD = {
     'C14': dict(technique=' + detailed balance in integral form on sigma-finite state spaces (Mathlib measure theory)',
                 text=' C14c_detailed_balance: for the move part of the kernel of the plain sampler on any sigma-finite state space, with a symmetric proposal density and a target positive on the domain, the probability flow from A to B equals the flow from B to A for all sets A, B.',
                 note=''),
+    'C17': dict(technique=' + the Welch estimate as a mathematical object (segments, mean removal, window, density scaling, averaging) with its scaling / rate-invariance / non-negativity theorems',
+                text=' C17w_scaling / C17w_scaling_area / C17w_area_fs_invariance / C17w_nonneg: the Welch estimate (averaged windowed one-sided density of mean-removed segments) scales with the square of the amplitude at every bin, keeps its area when only the sampling rate changes, and is non-negative; with one segment and a rectangular window it is the periodogram density.',
+                note=' The Welch object of the theorems is written out in numpy and compared with what welchSpectrum returns (1e-9) on every tested series.'),
     'C20': dict(technique=' + an EXECUTABLE model of gramSchmidOrth (coincidence test, column re-arrangement, the two loops; Model/Gram.lean) proved to be the abstract two-loop Gram-Schmidt in Euclidean space and compared with the implementation column by column',
                 text=' C20m_mgs_toE / C20m_orthonormal / C20m_first: the executable loops are the abstract loops under the embedding into EuclideanSpace; on linearly independent columns the output columns satisfy dot B_i B_j = delta_ij and the first is the normalised first column handed to the loops.',
-                note=' The executable model is compared with gramSchmidOrth at 1e-9 on integer matrices (default alignment, generic vector, exact positive / negative multiples of a column, vectors near a column).'),
+                note=' The executable model is compared with gramSchmidOrth at 1e-9 on integer matrices (default alignment, generic vector, exact positive / negative multiples of a column, vectors near a column). C20d_derivative_exact: the executable model of derivative() with ANY regenerated weight table returns the exact n-th derivative of every polynomial of degree below the stencil size (tables -> real moment conditions -> polynomial exactness, end to end); compared with utils.derivative on polynomials at decimal and dyadic steps.'),
 }
 
 
